@@ -2,7 +2,7 @@
    classes satisfy cc_ok; refutations and necessity witnesses by computation. *)
 From Coq Require Import ZifyBool.
 From Boltons Require Import Lib.Prelude Lib.C16_Text Spec.C16_Spec Model.C16_Model Gen.C16_Gen
-  Proofs.C16_Text Proofs.C16_Regex Proofs.C16_Parse Proofs.C16_Format.
+  Spec.C16_Re Proofs.C16_Text Proofs.C16_Regex Proofs.C16_Parse Proofs.C16_Format Proofs.C16_ReEquiv.
 Open Scope N_scope.
 
 (* ---- CPython's classes are lawful -------------------------------------------------------- *)
@@ -143,6 +143,26 @@ Section Main.
     apply N.leb_le in H1, H2. apply (dg_ascii C OK). lia.
   Qed.
 End Main.
+
+(* ---- the scanner's matchers are Python's re on the patterns of the current source --------------------- *)
+Definition gen_underline_set : list N :=
+  match gen_underline_items with [IBol; IStar (CSet l); IEol] => l | _ => [] end.
+
+Lemma frame_re_python C (OK : cc_ok C) s :
+  rmatch C gen_frame_items true s [] = option_map enc (frame_re C s).
+Proof. apply (frame_re_is_re C OK). reflexivity. Qed.
+
+Lemma se_frame_re_python C (OK : cc_ok C) s :
+  rmatch C gen_se_items true s [] = option_map enc (se_frame_re C s).
+Proof. apply (se_frame_re_is_re C). reflexivity. Qed.
+
+Lemma underline_re_python C s :
+  (if rmatch C gen_underline_items true s [] then true else false) = underline_re s.
+Proof.
+  apply (underline_re_is_re C gen_underline_set); [reflexivity|].
+  intro c. unfold inset. cbn [gen_underline_set gen_underline_items existsb].
+  destruct (c =? 126), (c =? 94), (c =? 32); reflexivity.
+Qed.
 
 (* ---- the refuted full statements (recorded findings) ------------------------------------------------ *)
 Lemma std_roundtrip_refuted :
